@@ -178,6 +178,18 @@ def x_life():
     ww = body_of("src/tbb/waiters.h", r"bool is_worker_should_leave\s*\(arena_slot&\s*slot\)\s*const\s*\{")
     if not re.search(r"if\(is_top_priority_arena\)\{if\(is_task_pool_empty&&my_arena\.is_recall_requested\(\)\)\{return true;\}\}else\{if\(my_arena\.is_recall_requested\(\)\)\{.*return true;\}\}return false;\}$", ww):
         raise GenError("outermost_worker_waiter::is_worker_should_leave: a worker no longer leaves exactly when is_recall_requested() (and, in a top-priority arena, its pool is empty)")
+    # a recalled worker really leaves: inside `if (is_worker_should_leave(slot)) { ... return false; }` of the outermost worker's
+    # continue_execution the only way back to work is `!is_empty() && !is_recall_requested()` (the recall was withdrawn meanwhile)
+    ce = body_of("src/tbb/waiters.h", r"(?s)class outermost_worker_waiter[^{]*\{.*?bool continue_execution\s*\(arena_slot&\s*slot,\s*d1::task\*&\s*t\)\s*const\s*\{")
+    m = re.search(r"if\(is_worker_should_leave\(slot\)\)\{(.*)return false;\}t=get_self_recall_task\(slot\);return true;\}$", ce)
+    if not m:
+        raise GenError("outermost_worker_waiter::continue_execution: `if (is_worker_should_leave(slot)) { ... return false; } t = get_self_recall_task(slot); return true;` not recognised")
+    leave = m.group(1)
+    stays = [x.start() for x in re.finditer(r"return true;", leave)]
+    guarded = len(re.findall(r"if\((?:!my_arena\.is_empty\(\)&&!my_arena\.is_recall_requested\(\)|!my_arena\.is_recall_requested\(\)&&!my_arena\.is_empty\(\))\)\{return true;\}", leave))
+    if len(stays) != guarded:
+        raise GenError("outermost_worker_waiter::continue_execution: a worker that should leave can go back to work although the recall is still requested "
+                       "(%d `return true` in the leave branch, %d of them guarded by `!is_empty() && !is_recall_requested()`)" % (len(stays), guarded))
     return ex, fl
 
 
@@ -207,7 +219,8 @@ def gen_part3():
                      ("local_wait_for_all: the bypass loop does not reassign ed.isolation", x_bypass),
                      ("execute_and_wait: the initial task's tag", x_execwait),
                      ("worker life cycle: num_workers_active, is_joinable, is_recall_requested, try_join (check then add), arena::process (occupy, dispatch, "
-                      "release before on_thread_leaving), on_thread_leaving's fetch_sub, is_worker_should_leave", x_life)]:
+                      "release before on_thread_leaving), on_thread_leaving's fetch_sub, is_worker_should_leave, the leave branch of continue_execution "
+                      "(a recalled worker goes back to work only if the recall was withdrawn)", x_life)]:
         try:
             e, f = fn()
             found.update(e)
